@@ -7,8 +7,8 @@ H(l) == hist' = Append(hist, l)
 GenInit == Init /\ hist = <<>>
 GenNext == \/ \E n \in 1..2 : (Ingest(n) /\ H(IF n = 1 THEN "ingest:1" ELSE "ingest:2"))
            \/ (FlushVis /\ H("flush.vis")) \/ (FlushEnd /\ H("flush.end"))
-           \/ (RotMeta /\ H("rot.meta")) \/ (RotRemove /\ H("rot.remove")) \/ (RotEnd /\ H("rot.end"))
-           \/ (QSnapU /\ H("q.snapU")) \/ (QSnapR /\ H("q.snapR")) \/ (QCheck /\ H("q.check")) \/ (QPlan /\ H("q.plan"))
+           \/ (RotTree /\ H("rot.tree")) \/ (RotMeta /\ H("rot.meta")) \/ (RotRemove /\ H("rot.remove")) \/ (RotEnd /\ H("rot.end"))
+           \/ (QSnapU /\ H("q.snapU")) \/ (QSnapR /\ H("q.snapR")) \/ (QTree /\ H("q.tree")) \/ (QCheck /\ H("q.check")) \/ (QPlan /\ H("q.plan"))
            \/ (QOpenCheck /\ H("q.open")) \/ (QOpenGetFetchCheck /\ H("q.fetch")) \/ (QFetchGet /\ H("q.search"))
 GenSpec == GenInit /\ [][GenNext]_<<vars, hist>>
 \* only behaviours in which the query overlaps writer activity are worth forcing; the writer must end idle
